@@ -72,7 +72,27 @@ def _run_once(chk):
                               {"case": x, "case_b": y, "line_at_a_time": a, "buffered": b})
 
 
+def past_i32_lines(chk):
+    """thorough tier only: the line counter is an i32 (D26) — an input of 2^31 + 2 lines through the real release binary (≈ 35 s)"""
+    import subprocess
+    from common import build_tuc, ENV
+    tuc = build_tuc(release=True)
+    for bounds, want in (("2147483645:", 6), ("2147483645:2147483647,2147483647:", 7), ("2147483646,2147483647", 2)):
+        cmd = f"head -c 2147483650 /dev/zero | tr '\\0' '\\n' | {tuc} -l {bounds} | wc -c; echo status=${{PIPESTATUS[2]}}"
+        p = subprocess.run(["bash", "-c", cmd], stdout=subprocess.PIPE, stderr=subprocess.DEVNULL, text=True, env=ENV, timeout=1800)
+        out = p.stdout.split()
+        chk.evaluations += 1
+        chk.count("lines-past-i32")
+        chk.nontrivial_add(("past-i32", bounds))
+        got = int(out[0]) if out and out[0].isdigit() else -1
+        if got != want or "status=0" not in p.stdout:
+            chk.report_oracle("on an input with more than 2^31-1 lines -l does not print exactly the selected lines",
+                              {"shell": cmd, "printed_bytes": got, "expected_bytes": want, "raw": p.stdout[-200:]})
+
+
 def run(chk):
+    if chk.tier == "thorough":
+        past_i32_lines(chk)
     # thorough = several independent rounds of the same generators (the PRNG keeps advancing), so that memory stays bounded
     for _round in range(1 if chk.tier == "quick" else 6):
         _run_once(chk)
